@@ -378,6 +378,7 @@ package ledger
 //@   ensures items_same() && ((result1 == nil) <==> (result0 != nil))
 //@   ensures result1 == nil ==> wf_delg(result0) && itemkey[result0] == key
 //@   ensures result1 == nil ==> result0 == delgof(l, key, 0)
+//@   ensures result1 == nil ==> pw_ok(result0)
 
 //@ func (l IFinalityLedger_delegateeLedger) GetFinality(key)
 //@   requires cons_ok                                                                     [C06]
@@ -386,6 +387,7 @@ package ledger
 //@   ensures items_same() && ((result1 == nil) <==> (result0 != nil))
 //@   ensures result1 == nil ==> wf_delg(result0) && itemkey[result0] == key
 //@   ensures result1 == nil ==> result0 == delgof(l, key, 1)
+//@   ensures result1 == nil ==> pw_ok(result0)
 
 //@ func (l ILedger_delegateeLedger) Set(item)
 //@   requires !cons_ok                                                                     [C06]
